@@ -49,6 +49,9 @@ struct Scn {
     /// the requests are issued one after the other by one task, and the requester's generator draws the SAME flow id
     /// for each (the id is free again once the previous request has resolved); the responder answers each at once
     sequential_same_id: bool,
+    /// the responder application has one task per expected request waiting in `next_bind_request` at the same time
+    /// (each takes one request and answers it at once) instead of one task that collects them all
+    many_responders: bool,
 }
 
 #[derive(Clone, Copy, Debug, PartialEq, Eq)]
@@ -93,8 +96,15 @@ fn exec(sc: &Scn, render: bool) -> RunOutput {
         for (i, r) in sc.reqs.iter().enumerate() {
             w.spawn_bind_requester(0, i as u32, r.btype, r.host.clone(), r.port);
         }
-        // the responder collects all requests first, then answers in the scripted order
-        w.spawn_bind_responder(1, sc.reqs.len(), sc.order.clone(), sc.answers.clone());
+        if sc.many_responders {
+            // (which task gets which request is up to the schedule; all answers are the same in these scenarios)
+            for k in 0..sc.reqs.len() {
+                w.spawn_bind_responder_named(1, &format!("{}", k + 1), 1, vec![0], vec![sc.answers[k]]);
+            }
+        } else {
+            // the responder collects all requests first, then answers in the scripted order
+            w.spawn_bind_responder(1, sc.reqs.len(), sc.order.clone(), sc.answers.clone());
+        }
     }
     if sc.both_sides {
         w.spawn_bind_requester(1, 100, 3, b"back".to_vec(), 1);
@@ -402,7 +412,7 @@ pub fn run(args: &Args) -> Report {
     let mut cases = Vec::new();
     let mut add = |sc: Scn| {
         let label = format!(
-            "{} request(s) answers={:?} order={:?} bind_buffer={} traffic={} both_sides={} faults={} id_collision_with_peer_open={} sequential_same_id={}",
+            "{} request(s) answers={:?} order={:?} bind_buffer={} traffic={} both_sides={} faults={} id_collision_with_peer_open={} sequential_same_id={}{}",
             sc.reqs.len(),
             sc.answers,
             sc.order,
@@ -411,7 +421,8 @@ pub fn run(args: &Args) -> Report {
             sc.both_sides,
             sc.faults,
             sc.collide,
-            sc.sequential_same_id
+            sc.sequential_same_id,
+            if sc.many_responders { " one responder task per request, all waiting in next_bind_request at the same time" } else { "" }
         );
         cases.push(Case { try_unbounded: false, max_k: u32::MAX, label, exec: Box::new(move |r| exec(&sc, r)) });
     };
@@ -427,22 +438,30 @@ pub fn run(args: &Args) -> Report {
                     if !thorough && n == 3 && buf == 4 && code % 3 != 0 {
                         continue;
                     }
-                    add(Scn { reqs: pool[..n].to_vec(), answers: answers.clone(), order: order.clone(), buf, with_traffic: n == 2 && code % 5 == 0, both_sides: thorough && n == 2 && code % 7 == 0, faults: false, collide: false, sequential_same_id: false });
+                    add(Scn { reqs: pool[..n].to_vec(), answers: answers.clone(), order: order.clone(), buf, with_traffic: n == 2 && code % 5 == 0, both_sides: thorough && n == 2 && code % 7 == 0, faults: false, collide: false, sequential_same_id: false, many_responders: false });
                 }
             }
             if n <= 2 {
-                add(Scn { reqs: pool[..n].to_vec(), answers: answers.clone(), order: (0..n).collect(), buf: 1, with_traffic: false, both_sides: false, faults: false, collide: true, sequential_same_id: false });
-                add(Scn { reqs: pool[..n].to_vec(), answers: answers.clone(), order: (0..n).collect(), buf: 1, with_traffic: false, both_sides: false, faults: true, collide: false, sequential_same_id: false });
+                add(Scn { reqs: pool[..n].to_vec(), answers: answers.clone(), order: (0..n).collect(), buf: 1, with_traffic: false, both_sides: false, faults: false, collide: true, sequential_same_id: false, many_responders: false });
+                add(Scn { reqs: pool[..n].to_vec(), answers: answers.clone(), order: (0..n).collect(), buf: 1, with_traffic: false, both_sides: false, faults: true, collide: false, sequential_same_id: false, many_responders: false });
             }
         }
         // one task issues the requests one after the other and draws the same flow id every time
         if n >= 2 {
             for a in [BindAnswer::Accept, BindAnswer::Reject, BindAnswer::DropIt] {
-                add(Scn { reqs: pool[..n].to_vec(), answers: vec![a; n], order: (0..n).collect(), buf: 1, with_traffic: false, both_sides: false, faults: false, collide: false, sequential_same_id: true });
+                add(Scn { reqs: pool[..n].to_vec(), answers: vec![a; n], order: (0..n).collect(), buf: 1, with_traffic: false, both_sides: false, faults: false, collide: false, sequential_same_id: true, many_responders: false });
+            }
+        }
+        // a pool of responder tasks, all waiting in next_bind_request at the same time (uniform answers)
+        if n >= 2 {
+            for a in [BindAnswer::Accept, BindAnswer::Reject] {
+                for buf in [1usize, 4] {
+                    add(Scn { reqs: pool[..n].to_vec(), answers: vec![a; n], order: (0..n).collect(), buf, with_traffic: false, both_sides: false, faults: false, collide: false, sequential_same_id: false, many_responders: true });
+                }
             }
         }
         // binds disabled on the responder
-        add(Scn { reqs: pool[..n].to_vec(), answers: vec![BindAnswer::Accept; n], order: (0..n).collect(), buf: 0, with_traffic: n == 2, both_sides: false, faults: false, collide: false, sequential_same_id: false });
+        add(Scn { reqs: pool[..n].to_vec(), answers: vec![BindAnswer::Accept; n], order: (0..n).collect(), buf: 0, with_traffic: n == 2, both_sides: false, faults: false, collide: false, sequential_same_id: false, many_responders: false });
     }
     let plan = Plan {
         ks: if thorough { vec![0, 1, 2, 3, 4, 5] } else { vec![0, 1, 2] },
@@ -454,7 +473,7 @@ pub fn run(args: &Args) -> Report {
         adaptive: thorough,
         witness_names: &[("resolved_true", W_TRUE), ("resolved_false", W_FALSE), ("unanswered_stays_pending", W_NEVER_PENDING), ("answers_out_of_arrival_order", W_OUT_OF_ORDER), ("binds_disabled", W_DISABLED), ("connection_end_injected", W_FAULT), ("more_requests_than_bind_buffer", W_QUEUE_FULL_WAIT), ("request_abandoned_by_requester", W_CANCELLED), ("peer_open_collides_with_pending_bind_id", W_COLLIDED), ("sequential_requests_drew_the_same_id", W_SAME_ID_AGAIN), ("request_issued_after_the_connection_ended_resolved", W_LATE_REQUEST)],
     };
-    rep.rule = "psim: requester issues 1..3 concurrent request_bind (types 1/3, hosts {1 B, empty, 255 B}, ports {0, 8080, 65535}); the responder application (bind_buffer_size 1 or 4, or binds disabled) collects the requests and answers them following EVERY answer vector over {accept, reject, drop the request, never answer} in (every / selected) permutation order; optional stream + datagram exchange alongside, optional request in the opposite direction, optional stream opened by the responder side whose generator draws the id of the pending first request (Connect on an id held by a bind request: must be rejected, the bind unaffected, the stream must come up on a fresh id), optional sequential issue of the requests by one task whose generator draws the same flow id every time (each request must still get its own answer), optional connection end (cut both, drop either Multiplexor) or abandonment of the first request by its requester (future dropped) at every point; every schedule <= k deviations. Oracle: each request resolves at most once; true iff the peer application accepted that very flow id; false iff it rejected/dropped it or binds are disabled; unanswered requests stay pending while the connection is up; after a connection end only false/Closed, also for a request issued after the end once everything has settled; the peer application is shown exactly type/host/port/id of a Bind frame on the wire and every request; resolved requests leave no slot behind".into();
+    rep.rule = "psim: requester issues 1..3 concurrent request_bind (types 1/3, hosts {1 B, empty, 255 B}, ports {0, 8080, 65535}); the responder application (bind_buffer_size 1 or 4, or binds disabled) collects the requests and answers them following EVERY answer vector over {accept, reject, drop the request, never answer} in (every / selected) permutation order; optional stream + datagram exchange alongside, optional request in the opposite direction, optional stream opened by the responder side whose generator draws the id of the pending first request (Connect on an id held by a bind request: must be rejected, the bind unaffected, the stream must come up on a fresh id), optional pool of responder tasks all waiting in next_bind_request at the same time (one per request, answering at once), optional sequential issue of the requests by one task whose generator draws the same flow id every time (each request must still get its own answer), optional connection end (cut both, drop either Multiplexor) or abandonment of the first request by its requester (future dropped) at every point; every schedule <= k deviations. Oracle: each request resolves at most once; true iff the peer application accepted that very flow id; false iff it rejected/dropped it or binds are disabled; unanswered requests stay pending while the connection is up; after a connection end only false/Closed, also for a request issued after the end once everything has settled; the peer application is shown exactly type/host/port/id of a Bind frame on the wire and every request; resolved requests leave no slot behind".into();
     rep.assumptions = vec!["flow ids are paired through the Bind frames seen on the wire (reference decoder)".into()];
     run_cases(args, &mut rep, cases, &plan);
     rep
